@@ -1,5 +1,6 @@
 /-
-  Model driver for C13 (line protocol of harness/c13_main.c). Imports Model + Gen only.
+  Model driver for C13 (line protocol of harness/c13_main.c; extra op `blockat` = `RandomAccess.blockAt` with the model of
+  the real decoder, `XzEnv.fastEnv`, used on real files). Imports Model + Gen only.
   Every answer is computed from the CONCRETE model (Model/IndexImpl.lean). For indexes of moderate size the driver
   also runs the abstract specification (Model/IndexSpec.lean) in lock step and appends " SPECDIFF ..." to the answer
   when the two disagree — a run-time refinement check that backs the theorems of Props/C13.lean on exactly the
@@ -9,6 +10,8 @@ import XzVerif.Model.Proto
 import XzVerif.Model.IndexSpec
 import XzVerif.Model.IndexImpl
 import XzVerif.Model.FileInfo
+import XzVerif.Model.XzEnv
+import XzVerif.Model.RandomAccess
 open XzVerif XzVerif.Proto XzVerif.Index
 
 structure Slot where
@@ -83,10 +86,10 @@ def St.put (st : St) (k : Nat) (s : Option Slot) : St := { st with slots := st.s
 
 def St.get (st : St) (k : Nat) : Option Slot := (st.slots[k]?).join
 
-def retS (r : Ret) : String := toString r.toNat
+def retS (r : Index.Ret) : String := toString r.toNat
 
 /-- Apply an operation that exists in both models; the shadow follows only on agreement of the return code. -/
-def both (s : Slot) (fi : Impl.Index → Ret × Impl.Index) (fs : SpecIndex → Ret × SpecIndex) : Ret × Slot × Option String :=
+def both (s : Slot) (fi : Impl.Index → Index.Ret × Impl.Index) (fs : SpecIndex → Index.Ret × SpecIndex) : Index.Ret × Slot × Option String :=
   let (r, i') := fi s.impl
   match s.spec with
   | none => (r, ⟨i', none⟩, none)
@@ -101,7 +104,7 @@ def answer (r : String) (s : Slot) (diff : Option String) : String :=
   | none => base
   | some d => base ++ " SPECDIFF " ++ d
 
-def appendN (s : Slot) : Nat → Nat → Nat → Nat → Ret × Nat × Slot × Option String
+def appendN (s : Slot) : Nat → Nat → Nat → Nat → Index.Ret × Nat × Slot × Option String
   | 0, done, _, _ => (.ok, done, s, none)
   | n + 1, done, u, c =>
     let (r, s', d) := both s (fun i => Impl.append i u c) (fun i => Spec.append i u c)
@@ -235,7 +238,7 @@ def step (st : St) (ws : List String) : St × String :=
         let s : Slot := ⟨i, keepShadow i sp⟩
         (st.put k (some s), answer s!"0 {r.used} {ml}" s diff)
       | ret, _ =>
-        let ret' := if ret == .ok then Ret.dataError else ret
+        let ret' := if ret == .ok then Index.Ret.dataError else ret
         let a := s!"{ret'.toNat} 0 {if ret == .memlimitError then r.memNeeded else ml} null"
         -- the specification has no allocator: LZMA_MEM_ERROR is outside its vocabulary
         let diff := if r.ret == .memError ∨ (r2.ret == r.ret ∧ r2.used = r.used) then "" else s!" SPECDIFF ret {r2.ret.toNat} {r2.used}"
@@ -369,6 +372,24 @@ def step (st : St) (ws : List String) : St × String :=
         let (r, used, h') := h.decode bs
         ({ st with hash := some h' }, s!"{r.toNat} {used}")
     | none => (st, "bad-op")
+  | ["blockat", spec, hx] =>
+    -- random access on a real file: `spec` = `check,offset,cap;…` (one entry per Block, offsets from the index);
+    -- answer per Block: `ret consumed compressed hex(out)` of `RandomAccess.blockAt` with the model of the real decoder
+    match bytesOfHex hx with
+    | some bs =>
+      let one (e : String) : String :=
+        match (e.splitOn ",").map String.toNat? with
+        | [some check, some off, some cap] =>
+          let r := RandomAccess.blockAt XzEnv.fastEnv check false (bs.drop off) cap
+          s!"{r.ret.toNat} {r.consumed} {r.compressed} {hexOfBytes r.out}"
+        | _ => "bad-entry"
+      (st, " | ".intercalate ((spec.splitOn ";").map one))
+    | none => (st, "bad-op")
   | _ => (st, "bad-op")
 
-def main : IO Unit := runLoop step St.init
+def main : IO UInt32 := do
+  if !XzEnv.fastSelfTest then
+    IO.eprintln "xzm_c13: fastEnv differs from the Check/Sha256 models (self test)"
+    return 3
+  runLoop step St.init
+  return 0
